@@ -6,12 +6,14 @@ import GdVerif.Run.Ffow
 import GdVerif.Run.GenFfow
 import GdVerif.Run.TheShip
 import GdVerif.Run.GenTheShip
+import GdVerif.Run.Battalion
+import GdVerif.Run.GenBattalion
 /-
   Registration of the single-game families (C07): entries and generators.
 -/
 namespace Gd.Run
 
-def smallEntries : List (String × (List String → String)) := mindustryEntries ++ savage2Entries ++ ffowEntries ++ theShipEntries
+def smallEntries : List (String × (List String → String)) := mindustryEntries ++ savage2Entries ++ ffowEntries ++ theShipEntries ++ battalionEntries
 
 def smallGen (suite : String) (seed n : Nat) : Option (List String) :=
   match suite with
@@ -19,6 +21,7 @@ def smallGen (suite : String) (seed n : Nat) : Option (List String) :=
   | "savage2" => some (genSavage2 seed n)
   | "ffow" => some (genFfow seed n)
   | "theship" => some (genTheShip seed n)
+  | "battalion" => some (genBattalion seed n)
   | _ => none
 
 end Gd.Run
